@@ -67,6 +67,9 @@ def _cases(tier):
 def build(tier, seed):
     cs = _cases(tier)
     tasks = [{"cases": cs[i : i + BATCH]} for i in range(0, len(cs), BATCH)]
+    pc = [{"sh": sh, "old": o, "new": n, "flags": f, "ans": a} for sh, o, n in PLUGIN_PAIRS for f, a in PLUGIN_CFGS]
+    for i in range(0, len(pc), 5):
+        tasks.append({"plugin": pc[i : i + 5]})
     S = _seqs(4 if tier == "quick" else 5)
     for i in range(0, len(S), 8):
         tasks.append({"align": S[i : i + 8], "all": len(S), "L": 4 if tier == "quick" else 5})
@@ -232,7 +235,46 @@ def _check_align(align, old, new):
     return None
 
 
+PLUGIN_PAIRS = [("list", [0, 1, 2], [0, 2, 2]), ("list", [0, 1], [0, 1, 2]), ("list", [0, 1, 2, 1], [1, 2, 1]), ("tuple", [0, 1], [1]),
+                ("inlist", [0, 1, 2], [0, 9 % 3, 2]), ("indict", [1, 1, 0], [1, 0]), ("dict", {"a": 0, "b": 1}, {"a": 0, "b": 0, "c": 1}),
+                ("kwcall", {"a": 0, "b": 1, "c": 1}, {"a": 0, "c": 0}), ("list", [2, 0, 1], [0, 1, 2])]
+PLUGIN_CFGS = [(["fix"], None), (["fix", "report"], None), (["review"], "yn"), (["review"], "y"), (["short-report", "fix"], None),
+               (["fix", "review"], "n"), (["fix", "trim", "create"], None)]
+
+
+def _plugin_case(c):
+    """Real sessions in which update is shown / asked but not approved: equal elements must still keep their text."""
+    from ..drivers import plugin
+    from ..oracles.locate import snapshot_calls
+    from ..drivers.inline import reexec
+
+    case = {"sh": c["sh"], "old": c["old"], "new": c["new"]}
+    src = (DC3 if c["sh"] == "kwcall" else "") + "from inline_snapshot import snapshot\n\n\n" + _site(0, case)
+    d = plugin.mk_project({"test_something.py": src, "pyproject.toml": ""})
+    try:
+        stdin = None if c["ans"] is None else ("\n".join(c["ans"]) + "\n").encode() + b"n\n" * 4
+        r = plugin.session(d, ["--inline-snapshot=" + ",".join(c["flags"])], stdin=stdin)
+        after = plugin.listing(d, text=True)["test_something.py"]
+    finally:
+        plugin.cleanup()
+    if plugin.internal_error(r["out"]) or r["rc"] not in (0, 1):
+        return ("internal-error", r["out"][-600:])
+    if "short-report" in c["flags"]:
+        return None if after == src else ("written-under-short-report", after[-300:])
+    call = snapshot_calls(after, toplevel_only=True)[0]
+    rx = reexec({"test_something.py": after})["test_something.py"]
+    t = rx["tests"].get("test_0", "missing") if not rx["module_error"] else rx["module_error"]
+    v = _analyze(case, 0, None, call, t, {})
+    if v is None and ("+0" not in call["arg_text"] and "1+1" not in call["arg_text"]) and any(
+            (x in c["new"]) if isinstance(c["old"], list) else (c["new"].get(x) == y) for x, y in (c["old"].items() if isinstance(c["old"], dict) else [(e, e) for e in c["old"]])):
+        v = ("unapproved-update-applied", "no hand-written element text left: %s" % call["arg_text"][:200])
+    return (v[0], v[1] + "\n--- output ---\n" + r["out"][-500:]) if v else None
+
+
 def run_case(case):
+    if "flags" in case:
+        v = _plugin_case(case)
+        return [{"case": case, "what": v[0], "detail": v[1]}] if v else []
     if "align" in case:
         from inline_snapshot._align import align
 
@@ -242,6 +284,18 @@ def run_case(case):
 
 
 def run_task(task):
+    if "plugin" in task:
+        out = {"n": 0, "nontrivial": [], "outcomes": {}, "violations": [], "samples": []}
+        for c in task["plugin"]:
+            out["n"] += 1
+            vs = run_case(c)
+            out["violations"] += vs
+            lab = "viol:" + vs[0]["what"] if vs else "ok:plugin"
+            if not vs:
+                out["nontrivial"].append("plugin" + repr(sorted(c.items(), key=str)))
+            out["outcomes"][lab] = out["outcomes"].get(lab, 0) + 1
+        out["samples"].append({"plugin_case": task["plugin"][0]})
+        return out
     if "align" in task:
         return _align_probe(task["align"], task["L"])
     r = batch.run_batched(task["cases"], _judge, label=lambda c: "ok:" + c["sh"],
